@@ -32,6 +32,10 @@ def run(tier):
     tb += b
     ts += s
     c.cov["utf8_strings"] = n
+    # impl -> spec: long random executions, slices and cells interleaved (u64 elements, buffers up to 6), validated by TLC
+    nfiles, events = (2, 3000) if quick else (8, 20000)
+    c.cov["trace_events_validated"] = lib.trace_step(c, rt, ["views"], "Trace_Views", "Trace_Views.cfg", nfiles, events,
+                                                     what="execution of slice views / option / result / tuple cells rejected by Views.tla")
     serde_info(c)
     c.assumptions += ["addresses are compared as element offsets inside the caller's buffer; zero-sized elements have neither address nor contents, only lengths are compared for them",
                       "UTF-8 oracle: spec/Utf8.tla (Unicode Table 3-7 byte classes), self-checked by an ASSUME on boundary cases"]
